@@ -8,6 +8,10 @@
 (*                     f entered again, "ok"/"fail": the call returned)    *)
 (*                     and the value f was handed on entry (in)            *)
 (*   final             what Get returned after all callers finished        *)
+(*   wt[w]             (optional) what watcher w observed: [a |-> "watch",  *)
+(*                     in |-> what Get returned when it was registered],   *)
+(*                     then [a |-> "deliver", in |-> value it was called   *)
+(*                     with] in its own order                              *)
 (* Nothing orders the events of different callers (no wall clock).  The    *)
 (* order is reconstructed: a step that reads the cell (begin, or a retry's *)
 (* re-read) is an enabled KVCas step only while the cell holds exactly the *)
@@ -34,13 +38,17 @@ EXTENDS KVCas
 Trace == ndJsonDeserialize("trace.ndjson")
 
 VARIABLES l,     \* line being validated
-          pos    \* pos[c] = number of consumed steps of caller c
+          pos,   \* pos[c] = number of consumed steps of caller c
+          wpos   \* wpos[w] = number of consumed events of watcher w
 
 AsVal(s)    == {<<s[i][1], s[i][2], s[i][3]>> : i \in 1..Len(s)}
 NCl(t)      == Len(t.ev)
 HasNext(c)  == c <= NCl(Trace[l]) /\ pos[c] < Len(Trace[l].ev[c])
 Ev(c)       == Trace[l].ev[c][pos[c] + 1]
 IsWrite(c)  == Ev(c).a = "put" /\ Ev(c).e = "ok"
+WLog(t)     == IF "wt" \in DOMAIN t THEN t.wt ELSE <<>>
+HasNextW(w) == w <= Len(WLog(Trace[l])) /\ wpos[w] < Len(WLog(Trace[l])[w])
+WEv(w)      == WLog(Trace[l])[w][wpos[w] + 1]
 
 StartOf(t) == /\ Backend = t.be /\ Secondary = "none"
               /\ cell = [val |-> Nil, ver |-> 0] /\ ctr = 1
@@ -48,9 +56,10 @@ StartOf(t) == /\ Backend = t.be /\ Secondary = "none"
               /\ applied = <<>>
               /\ res = [c \in Clients |-> [k \in 1..OpsPer |-> ""]]
               /\ mirror = Nil
+              /\ wt = [w \in Watchers |-> [on |-> FALSE, from |-> 0, last |-> 0]]
               /\ hist = <<[a |-> "setup", be |-> t.be, sec |-> "none", limit |-> Limit]>>
 
-TraceInit == l = 1 /\ pos = [c \in Clients |-> 0] /\ StartOf(Trace[1])
+TraceInit == l = 1 /\ pos = [c \in Clients |-> 0] /\ wpos = [w \in Watchers |-> 0] /\ StartOf(Trace[1])
 
 (* IsEvent /\ bind logged fields /\ SpecAction(args) *)
 SpecStep(c) ==
@@ -61,24 +70,38 @@ SpecStep(c) ==
          [] e.a = "err"     -> Err(c, e.rf)
     /\ LET h == hist'[Len(hist')] IN h.a = e.a /\ h.c = c /\ h.e = e.e /\ h.in = AsVal(e.in)
     /\ pos' = [pos EXCEPT ![c] = @ + 1]
-    /\ l' = l
+    /\ l' = l /\ wpos' = wpos
+
+(* a watcher's next event: its registration (while the cell holds what Get returned then) or a *)
+(* call with a value the store has held since its last call                                    *)
+WStep(w) ==
+    LET e == WEv(w) IN
+    /\ CASE e.a = "watch"   -> Watch(w)
+         [] e.a = "deliver" -> \E i \in 1..Len(applied) : Deliver(w, i)
+    /\ LET h == hist'[Len(hist')] IN h.a = e.a /\ h.c = w /\ h.in = AsVal(e.in)
+    /\ wpos' = [wpos EXCEPT ![w] = @ + 1]
+    /\ l' = l /\ pos' = pos
 
 Lowest(S) == CHOOSE c \in S : \A d \in S : c <= d
 
 Quiet == {c \in Clients : HasNext(c) /\ ~IsWrite(c) /\ ENABLED SpecStep(c)}
+QuietW == {w \in Watchers : HasNextW(w) /\ ENABLED WStep(w)}
 
 (* the logged values of each line (a constant: TLC evaluates it once), and those of the current *)
 (* line strictly above the current value                                                       *)
-ObsOf(t) == UNION {{AsVal(t.ev[c][i].in) : i \in 1..Len(t.ev[c])} : c \in 1..Len(t.ev)} \cup {AsVal(t.final)}
+ObsOf(t) == UNION {{AsVal(t.ev[c][i].in) : i \in 1..Len(t.ev[c])} : c \in 1..Len(t.ev)}
+               \cup UNION {{AsVal(WLog(t)[w][i].in) : i \in 1..Len(WLog(t)[w])} : w \in 1..Len(WLog(t))}
+               \cup {AsVal(t.final)}
 Obs      == [i \in 1..Len(Trace) |-> ObsOf(Trace[i])]
 Above    == {v \in Obs[l] : cell.val \subseteq v /\ v # cell.val}
 
-LineDone == \A c \in Clients : ~HasNext(c)
+LineDone == (\A c \in Clients : ~HasNext(c)) /\ (\A w \in Watchers : ~HasNextW(w))
 
 NextLine ==
     /\ LineDone /\ cell.val = AsVal(Trace[l].final)
+    /\ CaughtUp     \* after quiescence every watcher has been called with the latest value
     /\ PrintT(<<"line-accepted", l>>)
-    /\ l' = l + 1 /\ pos' = [c \in Clients |-> 0]
+    /\ l' = l + 1 /\ pos' = [c \in Clients |-> 0] /\ wpos' = [w \in Watchers |-> 0]
     /\ IF l < Len(Trace)
        THEN /\ Backend' = Trace[l + 1].be /\ Secondary' = "none"
             /\ cell' = [val |-> Nil, ver |-> 0] /\ ctr' = 1
@@ -86,6 +109,7 @@ NextLine ==
             /\ applied' = <<>>
             /\ res' = [c \in Clients |-> [k \in 1..OpsPer |-> ""]]
             /\ mirror' = Nil
+            /\ wt' = [w \in Watchers |-> [on |-> FALSE, from |-> 0, last |-> 0]]
             /\ hist' = <<[a |-> "setup", be |-> Trace[l + 1].be, sec |-> "none", limit |-> Limit]>>
        ELSE UNCHANGED vars
 
@@ -100,13 +124,14 @@ StrictW == {c \in Writers : ~Blind(c)}
 TraceNext ==
     /\ l <= Len(Trace)
     /\ \/ Quiet # {} /\ SpecStep(Lowest(Quiet))
-       \/ Quiet = {} /\ ~LineDone /\ Writers # {} /\ SpecStep(Lowest(IF StrictW # {} THEN StrictW ELSE Writers))
+       \/ Quiet = {} /\ QuietW # {} /\ WStep(Lowest(QuietW))
+       \/ Quiet = {} /\ QuietW = {} /\ ~LineDone /\ Writers # {} /\ SpecStep(Lowest(IF StrictW # {} THEN StrictW ELSE Writers))
        \/ NextLine
 
 RECURSIVE SumLen(_, _)
 SumLen(s, i) == IF i > Len(s) THEN 0 ELSE Len(s[i]) + SumLen(s, i + 1)
 RECURSIVE Steps(_)
-Steps(i) == IF i > Len(Trace) THEN 0 ELSE 1 + SumLen(Trace[i].ev, 1) + Steps(i + 1)
+Steps(i) == IF i > Len(Trace) THEN 0 ELSE 1 + SumLen(Trace[i].ev, 1) + SumLen(WLog(Trace[i]), 1) + Steps(i + 1)
 
 (* the path TLC found consumed every event of every line *)
 AllAccepted == TLCGet("stats").diameter = Steps(1) + 1
